@@ -456,6 +456,41 @@ def rule_same_inputs(ctx, facts, prefix="C01-R7"):
     ctx.check(len(news) == 1, prefix, "one-finder", "the file list is discovered once per run (%d)" % len(news), g.where())
 
 
+def rule_file_list_immutable(ctx, facts, prefix):
+    """both drivers hand the *discovered* list to every pass: after CodeFinder::new the list is never
+    mutated (no retain / filter-in-place / clear / sort / push on it, no `&mut` of the finder), so
+    every pass of a run — and --check versus edit — looks at the same files."""
+    MUT = r"Vec::<.*>::(retain|retain_mut|clear|truncate|remove|swap_remove|drain|dedup\w*|sort\w*|push|insert|pop|append|extend|split_off|resize\w*|reverse)$|::(find|set_len)$"
+    for pat, what in ((edit.GENERATE, "edit driver"), (edit.CHECK, "check driver")):
+        d = facts.one(pat)
+        if d is None:
+            continue
+        prov = Prov(d)
+        nf = d.calls_to(r"CodeFinder::<'\w+>::new$|CodeFinder::new$")
+        if not ctx.check(len(nf) == 1, prefix, "anchor|discovery|" + what, "%s: one discovery call" % what, d.where()):
+            continue
+        bad = []
+        for c in d.calls:
+            if c.bb == nf[0].bb or not c.args:
+                continue
+            if re.search(MUT, c.name) or re.search(MUT, c.func.get("full", "")):
+                o = prov.origins_op(c.args[0])
+                if any(x[0] == "call" and x[1].bb == nf[0].bb for x in o):
+                    bad.append(c)
+        # any mutable borrow of the finder (or of a field of it)
+        finders = set()
+        for l in range(len(d.locals)):
+            if "CodeFinder" in d.local_ty(l) and not d.local_ty(l).startswith("std::option::Option"):
+                finders.add(l)
+        for bb in sorted(d.reachable_blocks()):
+            for st in d.blocks[bb]["stmts"]:
+                if st["k"] == "assign" and st["rv"]["k"] == "ref" and st["rv"].get("mut") and st["rv"]["place"]["l"] in finders:
+                    bad.append(type("X", (), {"name": "&mut finder", "where": (lambda self=None, _b=bb: d.where(_b))})())
+        ctx.check(not bad, prefix, "file-list-mutated|" + what,
+                  "%s: the discovered file list is not modified before or between the passes (%s)" % (what, [getattr(c, "name", "?") for c in bad] or "no mutation"),
+                  bad[0].where() if bad else d.where())
+
+
 def _base_locals(body, prov, op):
     p = op_place(op)
     return prov.bases(p["l"]) if p else set()
@@ -472,6 +507,7 @@ def run(ctx):
     rule_same_inputs(ctx, facts)
     from .finder import rule_parse_complete
     rule_parse_complete(ctx, facts, "C01-R7")
+    rule_file_list_immutable(ctx, facts, "C01-R7")
     ctx.assume("the lock, when used, is ahead of every ID in the tree (statement's precondition)")
     ctx.assume("files do not change between the scanning pass and the insertion pass of one run")
     return {
